@@ -160,6 +160,48 @@ func BuildWorld(base, tree string, nm *NameMap) (*World, error) {
 	return w, nil
 }
 
+// RawNode describes one object of a generated tree: host path relative to the root.
+type RawNode struct {
+	Path string
+	Kind byte // F D L H
+	Perm os.FileMode
+	Data []byte
+	Tgt  string // L: link text; H: path (relative to the root) of the file to link to
+}
+
+// BuildRawWorld: like BuildWorld for a generated tree.
+func BuildRawWorld(base string, nodes []RawNode, nm *NameMap) (*World, error) {
+	w, err := BuildWorld(base, "T0", nm)
+	if err != nil {
+		return nil, err
+	}
+	for _, d := range nodes {
+		p := w.Root + "/" + d.Path
+		switch d.Kind {
+		case 'D':
+			if err = os.Mkdir(p, 0o755); err == nil {
+				err = os.Chmod(p, d.Perm)
+			}
+		case 'F':
+			if err = os.WriteFile(p, d.Data, 0o644); err == nil {
+				err = os.Chmod(p, d.Perm)
+			}
+		case 'L':
+			err = os.Symlink(d.Tgt, p)
+		case 'H':
+			err = os.Link(w.Root+"/"+d.Tgt, p)
+		}
+		if err != nil {
+			return nil, err
+		}
+	}
+	if err := SetAllMtimes(base, MtTime(1)); err != nil {
+		return nil, err
+	}
+	w.Start = time.Now().Unix()
+	return w, nil
+}
+
 // SetAllMtimes sets the mtime of every file and directory below (and including) top, children first.
 func SetAllMtimes(top string, t time.Time) error {
 	var paths []string
@@ -404,7 +446,13 @@ func linkSig(l *Listing, where string) []string {
 		}
 		var ps []string
 		for _, i := range ix {
+			if in := inside(l.Ents[i].HostP); where == "in" && !in || where == "out" && in {
+				continue
+			}
 			ps = append(ps, l.Ents[i].HostP)
+		}
+		if len(ps) < 2 {
+			continue
 		}
 		sort.Strings(ps)
 		out = append(out, strings.Join(ps, "="))
